@@ -26,10 +26,10 @@ def cases(seed, tier):
     out = []
     n = 400 if tier == "quick" else 3000
     korders = 4 if tier == "quick" else 10
-    rows = ["list", "tuple", "npint"]
+    rows = ["list", "tuple", "npint", "nprow"]
     for i in range(n):
         out.append({"gen": "zoo", "seed": rng.randrange(2 ** 31), "max_size": 6 if tier == "quick" else rng.choice([4, 8, 12]),
-                    "sorted": i % 4 != 3, "orders": korders, "first": (i * korders) % 34, "irows": rows[i % 3],
+                    "sorted": i % 4 != 3, "orders": korders, "first": (i * korders) % 34, "irows": rows[i % 4],
                     "vrows": ["list", "tuple", "nprow"][(i // 3) % 3]})
     return out
 
